@@ -86,7 +86,7 @@ def FilePost (cfg : Cfg) (dst : Map DNode) (e : SEntry) (m : FileMeta) (res : Op
   ∃ d, res = some (.file d) ∧
     (planFileAct cfg m (dst.get? e.rel) = .skip → res = dst.get? e.rel) ∧
     (planFileAct cfg m (dst.get? e.rel) ≠ .skip → Matches cfg d m) ∧
-    (∀ o, dst.get? e.rel = some (.file o) → d.ino = o.ino)
+    (cfg.hardlinks = false → ∀ o, dst.get? e.rel = some (.file o) → d.ino = o.ino)
 
 structure EntryPost (cfg : Cfg) (scan : List SEntry) (dst : Map DNode) (e : SEntry) (res : Option DNode) : Prop where
   dir : e.kind = .dir → e.rel ≠ [] → res = some .dir
@@ -128,7 +128,7 @@ theorem filePost_of_taskPost {cfg : Cfg} {scan : List SEntry} {dst : Map DNode} 
     have hun := unchanged_of_taskPost tp (Or.inl (by rw [hpe]; exact hs))
     have := hun.of_present (by rw [hd]; simp)
     exact ⟨d, this.trans hd, fun _ => this, fun h => absurd hs h,
-      fun o ho => by rw [hd] at ho; simp only [Option.some.injEq, DNode.file.injEq] at ho; rw [ho]⟩
+      fun _ o ho => by rw [hd] at ho; simp only [Option.some.injEq, DNode.file.injEq] at ho; rw [ho]⟩
   · have hact : (planEntry cfg dst e).act ≠ .skip := by rw [hpe]; exact hs
     obtain ⟨d, hd, hm, hi⟩ := tp.file hact m n (by rw [hpe])
     rw [planEntry_rel] at hi
